@@ -345,7 +345,7 @@ func topArgs(t Term) (string, []Term) {
 			d++
 		case ')':
 			d--
-		case ' ':
+		case ' ', '\n', '\t', '\r':
 			if d == 0 {
 				if i > start {
 					parts = append(parts, body[start:i])
